@@ -214,8 +214,22 @@ def gen_bounds(r, positive, nonneg=False):
     return lo, lo + r.choice([0.25, 1.0, 2.5, 6.0])
 
 
+def desc_ok(cls, mk, noisy):
+    """May this axis be given in DESCENDING order (min argument > max argument)?  The constructors of the
+    1-D/2-D/3-D/N-D classes accept it for every method (the noisy ones since the default std is
+    |(max - min)/n|/4, commit 0dd583c); GeneratorSpherical rejects r_max < r_min."""
+    return cls != 'GSph'
+
+
+def orient(r, a, b, ok, force=None):
+    """Return the interval as passed to the constructor: ascending, or (if allowed) descending."""
+    desc = ok and (force if force is not None else r.random() < 0.35)
+    return (b, a) if desc else (a, b)
+
+
 def gen_cfgs(r, G, quick):
-    """Every accepted method of every class x sampled sizes in 1..64 x bounds of both signs."""
+    """Every accepted method of every class x sampled sizes in 1..64 x bounds of both signs and BOTH ORIENTATIONS
+    (descending intervals where the constructor accepts them, see desc_ok)."""
     cfgs = []
     size_pool = [1, 2, 3, 5, 7, 16, 33, 64]
     for cls in ('G1D', 'G2D', 'G3D', 'GSph'):
@@ -226,12 +240,18 @@ def gen_cfgs(r, G, quick):
             shapes = [[1] * d, [2] * d, [64 if cls != 'G3D' else 16] + [r.choice(size_pool[:6]) for _ in range(d - 1)]]
             while len(shapes) < k + 1:
                 shapes.append([r.choice(size_pool if cls != 'G3D' else size_pool[:7]) for _ in range(d)])
-            for sz in shapes:
+            ok_d = desc_ok(cls, m, False)
+            plans = [(sz, None) for sz in shapes]
+            if ok_d:          # deterministic coverage: all axes descending, and only the first axis descending
+                plans += [([r.choice([3, 5, 8]) for _ in range(d)], 'all'), ([r.choice([2, 4, 7]) for _ in range(d)], 'first')]
+            for sz, plan in plans:
                 if need2 and min(sz) < 2:
                     continue
                 lo, hi = [], []
-                for _ in range(d):
+                for ax in range(d):
                     a, b = gen_bounds(r, positive=m.startswith('log-spaced'), nonneg=cls == 'GSph')
+                    force = None if plan is None else (plan == 'all' or ax == 0)
+                    a, b = orient(r, a, b, ok_d, force)
                     lo.append(a); hi.append(b)
                 cfgs.append({'cls': cls, 'method': m, 'noisy': False, 'sizes': sz, 'lo': lo, 'hi': hi})
     nd_methods = accepted_methods(G, 'GND')
@@ -245,8 +265,9 @@ def gen_cfgs(r, G, quick):
                     if m == 'chebyshev2':
                         sz = [max(2, s) for s in sz]
                     lo, hi = [], []
-                    for _ in range(N):
+                    for ax in range(N):
                         a, b = gen_bounds(r, positive=m == 'log-spaced')
+                        a, b = orient(r, a, b, desc_ok('GND', m, noisy), force=True if (rep == 0 and N == 3 and ax == 1) else None)
                         lo.append(a); hi.append(b)
                     cfgs.append({'cls': 'GND', 'method': m, 'noisy': noisy, 'sizes': sz, 'lo': lo, 'hi': hi, 'scalar': N == 1 and rep == 0})
     # mixed per-axis methods and abs_value
@@ -257,6 +278,7 @@ def gen_cfgs(r, G, quick):
         lo, hi = [], []
         for m in ms:
             a, b = gen_bounds(r, positive=m == 'log-spaced')
+            a, b = orient(r, a, b, desc_ok('GND', m, rep % 2 == 1))
             lo.append(a); hi.append(b)
         cfgs.append({'cls': 'GND', 'method': '+'.join(ms), 'methods': ms, 'noisy': rep % 2 == 1, 'abs_value': rep % 4 == 3, 'sizes': sz, 'lo': lo, 'hi': hi})
     return cfgs
@@ -288,7 +310,9 @@ def oracle(ck, torch, G, cfg):
         except Exception as e:
             k2 = f'{key}/get_examples-raises:{type(e).__name__}'
             axes_m = cfg.get('methods') or [m] * len(cfg['sizes'])
-            if cls == 'GND' and noisy and 'std >= 0' in str(e) and any(mk == 'exp-spaced' and lo < 0 for mk, lo in zip(axes_m, cfg['lo'])):
+            if 'std >= 0' in str(e) and any(lo > hi for lo, hi in zip(cfg['lo'], cfg['hi'])):
+                k2 += '/descending-interval'
+            if cls == 'GND' and noisy and 'std >= 0' in str(e) and any(mk == 'exp-spaced' and min(lo, hi) < 0 for mk, lo, hi in zip(axes_m, cfg['lo'], cfg['hi'])):
                 # the cause is the exp-spaced axis with negative nodes, whatever the other axes are
                 k2 = 'GeneratorND/exp-spaced/noisy/get_examples-raises:RuntimeError/negative-bounds'
             ck.fail(k2, f'{cname}(method={m!r}) is accepted by the constructor but get_examples() raises {type(e).__name__}: {e}',
@@ -323,7 +347,7 @@ def oracle(ck, torch, G, cfg):
             mk = ms[k] if cls == 'GND' else m
             if not domain_applies(cls, mk, noisy):
                 continue
-            a, b = cfg['lo'][k], cfg['hi'][k]
+            a, b = min(cfg['lo'][k], cfg['hi'][k]), max(cfg['lo'][k], cfg['hi'][k])      # either orientation
             for ex in outs:
                 v = ex[k].detach()
                 lo_v, hi_v = float(v.min()), float(v.max())
@@ -407,6 +431,8 @@ def oracle(ck, torch, G, cfg):
 
 
 def check_strata(ck, key, inp, pts, a, b):
+    """strata = the n equal-width cells of [min(a,b), max(a,b)]"""
+    a, b = min(a, b), max(a, b)
     n = len(pts)
     w = (b - a) / n
     idx = sorted(min(n - 1, max(0, int(math.floor((x - a) / w)))) for x in pts)
@@ -424,6 +450,7 @@ def entry_cfg(e, r):
     lo, hi = [], []
     for _ in range(d):
         a, b = gen_bounds(r, positive=m.startswith('log-spaced'), nonneg=cls == 'GSph')
+        a, b = orient(r, a, b, desc_ok(cls, m, e['noisy']))
         lo.append(a); hi.append(b)
     return {'cls': cls, 'method': m, 'noisy': e['noisy'], 'sizes': sz, 'lo': lo, 'hi': hi}
 
@@ -577,6 +604,21 @@ def probe_zero_node(ck, torch, G):
     oracle(ck, torch, G, dict(ZERO_NODE_CFG))
 
 
+DESC_NOISY_PROBES = [
+    {'cls': 'G1D', 'method': 'equally-spaced-noisy', 'noisy': False, 'sizes': [6], 'lo': [2.0], 'hi': [0.5]},
+    {'cls': 'G1D', 'method': 'log-spaced-noisy', 'noisy': False, 'sizes': [6], 'lo': [2.0], 'hi': [0.5]},
+    {'cls': 'G2D', 'method': 'equally-spaced-noisy', 'noisy': False, 'sizes': [3, 4], 'lo': [2.0, 0.0], 'hi': [0.5, 1.0]},
+    {'cls': 'G3D', 'method': 'equally-spaced-noisy', 'noisy': False, 'sizes': [3, 4, 2], 'lo': [0.0, 2.0, 0.0], 'hi': [1.0, 0.5, 1.0]},
+    {'cls': 'GND', 'method': 'chebyshev2', 'noisy': True, 'sizes': [3, 4], 'lo': [2.0, 0.5], 'hi': [0.5, 1.0]},
+]
+
+
+def probe_desc_noisy(ck, torch, G):
+    """Regression probes of the repaired finding (0dd583c): noisy methods with a descending interval."""
+    for cfg in DESC_NOISY_PROBES:
+        oracle(ck, torch, G, dict(cfg))
+
+
 def run_oracle(ck, torch, G, quick, salt='oracle'):
     r = ck.rng(salt)
     dist = ck.extra.setdefault('input_distribution', {})
@@ -607,7 +649,8 @@ def replay(ck, path):
 def main():
     ck = Check('C07')
     ck.rule = ('cases = every method each generator class accepts (candidates: all documented names) x sampled sizes in 1..64 per axis '
-               '(>= 2 for second-kind Chebyshev) x bounds of both signs (positive for log spacing, 0 <= r_min for the sphere) x 3 '
+               '(>= 2 for second-kind Chebyshev) x bounds of both signs and both orientations (descending intervals for every class but the sphere; '
+               'positive for log spacing, 0 <= r_min <= r_max for the sphere) x 3 '
                'get_examples() calls; + one scripted-RNG run per table entry; distinct = distinct (class, method, noisy, sizes, bounds); '
                'non-trivial = more than one point')
     if ck.replay:
@@ -634,6 +677,7 @@ def main():
     run_oracle(ck, torch, G, quick=not T)
     probe_F8(ck, torch, G)
     probe_zero_node(ck, torch, G)
+    probe_desc_noisy(ck, torch, G)
     if table is not None:
         cases, goals = [], []
         check_table_vs_acceptance(ck, G, table)
@@ -655,7 +699,7 @@ def main():
                        'Interval (interval tactic) for the in-kernel node goals',
                        'modelled not verified: IEEE-754 rounding, torch.linspace/logspace/meshgrid(ij)/flatten element formulas, ranges of torch.rand/randperm/randint, '
                        'torch.normal = mean + std*z, atan2 range, acos domain'],
-        assumptions=['a < b per axis; positive bounds for log spacing; 0 <= r_min <= r_max for the sphere; n >= 2 where the formula uses n - 1',
+        assumptions=['theorems: a < b per axis (hypothesis ne_ab / Hab); node/std theorems hold in both orientations, the LHS stratum theorem for a < b (descending: oracle + scripted table validation); positive bounds for log spacing; 0 <= r_min <= r_max for the sphere; n >= 2 where the formula uses n - 1',
                      'GeneratorND is tabulated at N = 2 with the same method on both axes (the oracle also runs N = 1, 3 and mixed methods)',
                      'GeneratorND "uniform" and the 2-D/3-D Latin hypercube are drawn once by the constructor: the property does not classify them (AnyOf)',
                      'spherical: denom is the leaf v_denom = Rmax (a+b+c) tiny with tiny = torch.finfo(dtype).tiny > 0 (generated definition e_defs); '
